@@ -23,6 +23,9 @@ def gen(rng, tier):
     depth = rng.choice([0, 1, 1, 2, 2, 3])
     base = {"kind": rng.choice(["sync", "pool", "pool"]), "n": rng.choice([1, 2])}
     layers = gen_layers(rng, depth, nsubs=6, faults=False)
+    for L in layers:
+        if L["t"] == "timeout" and rng.random() < 0.5:
+            L["timeout"] = rng.choice([0.05, 0.1, 0.15])   # a timeout that fires: cancels (and runs callbacks) on the timeout thread
     blocking = any(L["t"] == "throttle" and L.get("block") for L in layers)
     nest_ok = not blocking
     for L in layers:
